@@ -449,16 +449,29 @@ package quickfix
 //@   ensures @tagsarr (arr(reverseMsg.Header.tags) == old(arr(reverseMsg.Header.tags)) || (fresh(reverseMsg.Header.tags) && allocated(reverseMsg.Header.tags))) && (arr(reverseMsg.Header.tags) == 0 ==> reverseMsg.Header.tags == old(reverseMsg.Header.tags))
 //@   modifies reverseMsg.Header.tags, reverseMsg.Header.tags[*], reverseMsg.Header.tagLookup[*], reverseMsg.Header.tagLookup[dest][0].*, fresh E.uint8, fresh H.quickfix.TagValue.*, fresh E.quickfix.Tag, fresh P.quickfix.FIXString, fresh H.quickfix.messageRejectError.*, fresh P.quickfix.Tag
 
-// reverseRoute: a fresh reply; every copying step is one of the mirrored pairs; nothing but routing fields is set
+// reverseRoute: a fresh reply; every copying step is one of the mirrored pairs; nothing but routing fields is set; the
+// inbound message stays well-formed (no modifies clause: callers rely on the postconditions)
 //@ func (m *Message) reverseRoute [C06]
-//@   stepframes
 //@   requires msgok(m)
 //@   atcall reverseRoute$1 @pair ispair(arg0, arg1)
-//@   atcall reverseRoute$1 @new forall t Tag :: fhas(reverseMsg.Header.FieldMap, t) ==> fresh(reverseMsg.Header.tagLookup[t])
-//@   ensures @fresh result != nil && fresh(result) && msgsafe(result) && fresh(result.Header.tagLookup) && fresh(result.Body.tagLookup) && fresh(result.Trailer.tagLookup)
+//@   atcall reverseRoute$1 @mmaps mapsok(m)
+//@   atcall reverseRoute$1 @mhdr fmvals(m.Header.FieldMap)
+//@   atcall reverseRoute$1 @mbody fmvals(m.Body.FieldMap)
+//@   atcall reverseRoute$1 @mtrl fmvals(m.Trailer.FieldMap)
+//@   atcall reverseRoute$1 @rsafe msgsafe(reverseMsg)
+//@   atcall reverseRoute$1 @sep msgsep(reverseMsg, m)
+//@   atcall reverseRoute$1 @newmaps fresh(reverseMsg) && fresh(reverseMsg.Header.tagLookup) && fresh(reverseMsg.Body.tagLookup) && fresh(reverseMsg.Trailer.tagLookup)
+//@   atcall reverseRoute$1 @rbody forall t Tag :: !fhas(reverseMsg.Body.FieldMap, t) && !fhas(reverseMsg.Trailer.FieldMap, t)
+//@   atcall reverseRoute$1 @rnotype !fhas(reverseMsg.Header.FieldMap, 35) && !fhas(reverseMsg.Header.FieldMap, 34)
+//@   ensures @fresh result != nil && fresh(result) && fresh(result.Header.tagLookup) && fresh(result.Body.tagLookup) && fresh(result.Trailer.tagLookup)
+//@   ensures @safe msgsafe(result)
 //@   ensures @body forall t Tag :: !fhas(result.Body.FieldMap, t) && !fhas(result.Trailer.FieldMap, t)
 //@   ensures @notype !fhas(result.Header.FieldMap, 35) && !fhas(result.Header.FieldMap, 34)
-//@   modifies fresh H.quickfix.Message.*, fresh H.quickfix.FieldMap.*, fresh H.quickfix.tagSort.*, fresh H.sync.RWMutex.*, fresh H.sync.Mutex.*, fresh MH.quickfix.Tag.quickfix.field, fresh MV.quickfix.Tag.quickfix.field, fresh H.time.Time.*, fresh E.uint8, fresh H.quickfix.TagValue.*, fresh E.quickfix.Tag, fresh P.quickfix.FIXString, fresh H.quickfix.messageRejectError.*, fresh P.quickfix.Tag, fresh P.quickfix.Message
+//@   ensures @mmaps mapsok(m)
+//@   ensures @mhdr fmvals(m.Header.FieldMap)
+//@   ensures @mbody fmvals(m.Body.FieldMap)
+//@   ensures @mtrl fmvals(m.Trailer.FieldMap)
+//@   ensures @sep msgsep(result, m)
 
 // the reject-error interface is open (applications return their own): its methods are taken to be read-only and
 // a function of the receiver (assumption about user code)
